@@ -238,6 +238,15 @@ theorem many_files_maps_are_the_pointer_trees (s : S) (roots : Nat → List Nat)
         if b = a ∧ gmaps s roots a bn = 0 ∧ j = bn then (bmap s (roots a) bn).2.2.1 else gmaps s roots b j :=
   ⟨ginj_of_MWF s roots h, fun a bn hbn b j => mbmap_is_gensure s roots a bn h hbn b j⟩
 
+open GoNfsd.Model.BlockMap in
+/-- ... and the run of `Shrink` on the tree of one file is the `map` part of `resize` on that file
+    (the blocks from the new block count on become holes) and nothing on any other file's map. -/
+theorem truncation_on_the_pointer_trees_is_resize_on_the_maps (s : S) (roots : Nat → List Nat) (a T N : Nat)
+    (h : MWF s roots) (hN : N ≤ MAXBLKS) (hemp : EmptyFrom s.st (roots a) N) (b j : Nat) :
+    gmaps (shrinkTo s (roots a) T N).1 (setRoots roots a (shrinkTo s (roots a) T N).2) b j =
+      if b = a ∧ T ≤ j then 0 else gmaps s roots b j :=
+  mshrink_is_gunmap s roots a T N h hN hemp b j
+
 /-- Non-vacuity: file 1 writes, is cut to nothing (its block 100 goes back, cleared), file 2 takes
     the SAME block 100 and grows over it: file 2 reads zeros where file 1's bytes were. -/
 def g12 : List GOp := [.write 1 (fun i => 100 + i) 0 #[0xaa, 0xaa, 0xaa, 0xaa], .resize 1 0,
